@@ -127,6 +127,59 @@ def accumulate(ctx, case):
         ctl.restore_show()
 
 
+REAL_TEXTS = [('.m1', ['m1'], [], None), ('.m1, .m2', ['m1', 'm2'], [], None), ('.m2 ! .m3', ['m2'], ['m3'], None), ('! .m3', [], ['m3'], 'implicit'),
+              ('.m3, .m4', ['m3', 'm4'], [], None), ('*', [], [], 'explicit'), ('!', None, None, None), ('.m1(', 'bad', None, None), ('! .m4', [], ['m4'], 'implicit')]
+
+
+def real_sequences(ctx, case):
+    """the same rule through the REAL parser: interleaved filter / breakpoint commands with real texts, evaluated on real messages"""
+    n = case
+    from core import wl
+    w = ctl.make_world(ctx, 1, show_stub=True)
+    try:
+        msgs = {nm: wl.message.MockMessage(0.0, wl.object.MockObject(w.conns[0], 0.0, 5, 0, 'wl_x'), True, nm, ()) for nm in ('m1', 'm2', 'm3', 'm4', 'm5')}
+        state = {'filter': ('const', True), 'breakpoint': ('const', False)}
+        for step_i in range(n):
+            which = ctx.choose(['filter', 'breakpoint'], 'which%d' % step_i)
+            text, A, X, star = ctx.choose(REAL_TEXTS, 'text%d' % step_i)
+            old_obj = w.ctl.display_matcher if which == 'filter' else w.ctl.stop_matcher
+            nerr = len(w.err.items)
+            w.ctl.process_command(which + ' ' + text)
+            cur = w.ctl.display_matcher if which == 'filter' else w.ctl.stop_matcher
+            st = state[which]
+            if A == 'bad':
+                ctx.check('malformed text: error line, identical matcher object', len(w.err.items) == nerr + 1 and cur is old_obj)
+            elif A is None:
+                st = ('const', False)
+            elif st[0] == 'const':
+                st = ('acc', [], list(A), list(X), True) if star is not None else ('acc', list(A), [], list(X), False)
+            else:
+                _, sure, maybe, XX, sflag = st
+                XX = X + XX
+                if star == 'explicit':
+                    st = ('acc', [], maybe + sure + A, XX, True)
+                elif A:
+                    st = ('acc', A + sure, maybe, XX, False)
+                else:
+                    st = ('acc', sure, maybe, XX, sflag)
+            state[which] = st
+            # both stored matchers are evaluated after every step (a command must not disturb the other one)
+            for wh in ('filter', 'breakpoint'):
+                mm = w.ctl.display_matcher if wh == 'filter' else w.ctl.stop_matcher
+                s2 = state[wh]
+                for nm, m in msgs.items():
+                    real = mm.matches(m)
+                    if s2[0] == 'const':
+                        ctx.check('step %d: %s matcher is the constant %s' % (step_i, wh, s2[1]), real == s2[1])
+                    else:
+                        _, sure, maybe, XX, sflag = s2
+                        must_select = (sflag or nm in sure) and nm not in XX
+                        must_reject = nm in XX or (not sflag and nm not in sure and nm not in maybe)
+                        ctx.check('step %d (%s %s): %s matcher on .%s follows the accumulation rule' % (step_i, which, text, wh, nm), (not must_reject) if real else (not must_select))
+    finally:
+        ctl.restore_show()
+
+
 def twin(ctx, case):
     accumulate(ctx, case)
     ctx.check('reachability twin (must be violated)', False)
@@ -148,4 +201,6 @@ def obligations(tier):
     return [Ob('accumulate', 'symx', 'filter/breakpoint accumulation rule after every step of every command sequence', FUNCS, bounds, accumulate, cases=cases,
                stubs=['matcher.parse replaced (trees shaped like the real parser\'s; `*`, `!` from the real parser)', 'abstract leaves'],
                outside='longer sequences (the rule is a fold, so length 3 exercises const->acc, acc->acc, acc->const, const->acc transitions); leaves with constant always()'),
+            Ob('real-parser-sequences', 'symx', 'interleaved filter/breakpoint commands with real matcher texts through the real parser, both stored matchers evaluated on real messages after every step', FUNCS + ['core.matcher:parse'],
+               'all sequences of <= %d commands from 2 commands x %d texts; 5 message names' % (3 if tier == 'quick' else 4, len(REAL_TEXTS)), real_sequences, cases=[1, 2, 3] if tier == 'quick' else [1, 2, 3, 4]),
             Ob('accumulate-reachable', 'symx', 'reachability twin', FUNCS, bounds, twin, cases=[('filter', ('a!x', 'a,b'))], expect_cex=True)]
